@@ -88,6 +88,8 @@ class Ctx(object):
         self._out_digest = hashlib.blake2b(digest_size=8)
         self._out_n = 0
         self._out_frozen = False
+        self.history = []
+        self.history_seen = set()
 
     # -- budget ---------------------------------------------------------
     def set_budget(self, seconds):
@@ -132,6 +134,23 @@ class Ctx(object):
 
     def freeze_outputs(self):
         self._out_frozen = True
+
+    def remember(self, func, args, kwargs, result, cap=2500):
+        """Remember a call of a supposedly pure function made by shard 0 (dotted 'module:function', JSON-able arguments and
+        result). After the workload, vf/worker.py re-evaluates the remembered calls in a FRESH interpreter in REVERSE order
+        (vf/isolate.py) and compares: a result that depends on which calls came before (memo tables keyed on part of the
+        arguments, module-level state, consumed generators) shows up as a difference."""
+        if self.shard != 0 or len(self.history) >= cap:
+            return
+        try:
+            key = json.dumps([func, args, kwargs], sort_keys=True, ensure_ascii=False)
+            res = json.dumps(result, ensure_ascii=False)
+        except (TypeError, ValueError):
+            return
+        if key in self.history_seen:
+            return
+        self.history_seen.add(key)
+        self.history.append((func, args, kwargs, res))
 
     def exhaustive_space(self, name, size):
         self.exhaustive[name] = self.exhaustive.get(name, 0) + size
